@@ -1,0 +1,89 @@
+//go:build verif
+
+// Contracts for package local (watcher), read by the verification-condition generator
+// in /verif (govc). Comments only; compiled only with the build tag "verif".
+
+package local
+
+// ---------------------------------------------------------------------------
+// The sequential core of the watcher (C05). Goroutines, pub-subs and the retrieval of the newest published transaction
+// from the states handler (channel round trip) are trusted frames; everything that decides and assembles is verified.
+// ---------------------------------------------------------------------------
+
+// latest(lt): the newest transaction published to the watcher for the channel of retriever lt (it has a state: only signed
+// transactions are published). retrieve asks the states handler goroutine for it.
+//@ ghost func latest(lt txRetriever) channel.Transaction
+//@ func (txRetriever).retrieve
+//@   trusted
+//@   ensures result.State == latest(lt).State && result.Sigs == latest(lt).Sigs && result.State != nil
+
+// watched(r, id): the channel watched under id, or nil.
+//@ ghost func watched(r *registry, id channel.ID) *ch
+//@ func (*registry).retrieve
+//@   trusted
+//@   requires r != nil
+//@   ensures result0 == watched(r, id) && (result1 <==> result0 != nil)
+//@   ensures result1 ==> chOK(result0)
+//@ func (*registry).remove
+//@   trusted
+//@   requires r != nil
+
+// chOK: a watched channel as newCh builds it.
+//@ pred chOK(c *ch) = c != nil && c.params != nil && c.eventsToClientPub != nil && c.statesSub != nil && c.eventsFromChainSub != nil && c.done != nil &&
+//@   (c.parent != nil ==> c.parent.params != nil && c.parent.archivedSubChStates != nil && c.parent.subChs != nil && c.parent.parent == nil) &&
+//@   (c.parent == nil ==> c.archivedSubChStates != nil && c.subChs != nil)
+//@ pred treeRoot(c *ch) = c.parent != nil ? c.parent : c
+
+//@ interface adjudicatorPub
+//@   method publish
+//@     requires recv != nil
+//@   method close
+//@     requires recv != nil
+//@ end
+//@ interface statesSub
+//@   method close
+//@     requires recv != nil
+//@ end
+
+// The newest transactions of the channel tree: the parent's newest published transaction and, for every sub-allocation locked
+// in it, the newest published transaction of that sub-channel if it is still watched, else its archived last transaction.
+//@ pred subStateOK(r *registry, parent *ch, id channel.ID, s channel.SignedState) =
+//@   (watched(r, id) != nil ==> s.Params == watched(r, id).params && s.State == latest(watched(r, id).txRetriever).State && s.Sigs == latest(watched(r, id).txRetriever).Sigs) &&
+//@   (watched(r, id) == nil ==> s.Params == parent.archivedSubChStates[id].Params && s.State == parent.archivedSubChStates[id].State && s.Sigs == parent.archivedSubChStates[id].Sigs)
+//@ func retrieveLatestSubStates
+//@   requires r != nil && parent != nil && parent.archivedSubChStates != nil
+//@   ensures result0.State == latest(parent.txRetriever).State && result0.Sigs == latest(parent.txRetriever).Sigs
+//@   ensures len(result1) == len(result0.State.Locked) && fresh(arr(result1)) && forall i int :: 0 <= i && i < len(result1) ==> subStateOK(r, parent, result0.State.Locked[i].ID, result1[i])
+//@   loop 1
+//@     modifies subStates[*]
+//@     invariant len(subStates) == len(parentTx.State.Locked) && fresh(arr(subStates)) && off(subStates) == 0
+//@     invariant forall k int :: 0 <= k && k < $i ==> subStateOK(r, parent, parentTx.State.Locked[k].ID, subStates[k])
+
+// registerDispute registers exactly that tree, once, and records the registered versions.
+//@ func registerDispute
+//@   requires r != nil && registerer != nil && parentCh != nil && parentCh.params != nil && parentCh.archivedSubChStates != nil
+//@   modifies every(parentCh.registeredVersion)
+//@   ensures result == nil ==> parentCh.registeredVersion == latest(parentCh.txRetriever).State.Version
+//@   callsite channel.Registerer.Register : !arg1.Secondary && arg1.Params == parentCh.params && arg1.Tx.State == latest(parentCh.txRetriever).State && arg1.Tx.Sigs == latest(parentCh.txRetriever).Sigs &&
+//@     len(arg2) == len(arg1.Tx.State.Locked) && forall i int :: 0 <= i && i < len(arg2) ==> subStateOK(r, parentCh, arg1.Tx.State.Locked[i].ID, arg2[i])
+
+// The decision whether to refute: a dispute is registered only if the reported version is older than the newest published one
+// and nothing at least as new as the report has been registered by the watcher already (single-ledger channel), and always for
+// the root of the channel tree. A registered event is relayed only if its version is higher than every version relayed before.
+//@ func (*ch).handleRegisteredEvent
+//@   requires chOK(ch) && ctx != nil && e != nil && registerer != nil && chRegistry != nil
+//@   modifies *
+//@   callsite registerDispute : parentCh == old(treeRoot(ch)) &&
+//@     ((e.AdjudicatorEventBase.VersionV < latest(ch.txRetriever).State.Version && e.AdjudicatorEventBase.VersionV >= old(ch.registeredVersion)) ||
+//@      (old(ch.multiLedger) && (!old(ch.registered) || old(ch.registeredVersion) < e.AdjudicatorEventBase.VersionV)))
+//@   callsite watcher_local.adjudicatorPub.publish : !old(ch.published) || old(ch.publishedVersion) < e.AdjudicatorEventBase.VersionV
+//@   ensures ch.publishedVersion >= old(ch.publishedVersion) || !old(ch.published)
+
+// De-registration. A request that is refused because sub-channels of the ledger channel are still watched leaves the channel
+// watched: its done channel is not closed, it is not marked closed, so the request can be repeated later.
+//@ func (*Watcher).StopWatching
+//@   requires w != nil && w.registry != nil
+//@   modifies *
+//@   ensures old(watched(w.registry, id)) != nil && old(watched(w.registry, id).parent) == nil && !old(watched(w.registry, id).isClosed) && old(len(watched(w.registry, id).subChs)) > 0 ==>
+//@           result != nil && !watched(w.registry, id).isClosed && (closed(watched(w.registry, id).done) == old(closed(watched(w.registry, id).done)))
+//@   ensures result == nil ==> watched(w.registry, id).isClosed && closed(watched(w.registry, id).done)
